@@ -137,6 +137,9 @@ def converse(ch, ctx, kind, twin=False):
     return {"kind": kind}
 
 
+_SPECS = {}
+
+
 def build(bits, joins):
     tasks = {}
     for i, n in enumerate(NAMES):
@@ -150,14 +153,26 @@ def build(bits, joins):
     return {"version": 1.0, "tasks": tasks}
 
 
-def forward(ch, ctx, steps=5, twin=False):
-    bits = [[ch.flag("e%d%d" % (i, j)) for j in range(3)] for i in range(3)]
+def forward(ch, ctx, steps=5, twin=False, order=False, bits=False, fanout="pairs"):
+    if fanout == "subset":
+        bits = [[ch.flag("e%d%d" % (i, j)) for j in range(3)] for i in range(3)]
+    else:
+        # at most two targets per task: none, one of the three, or one of the three pairs
+        opts = [[], [0], [1], [2], [0, 1], [0, 2], [1, 2]]
+        bits = []
+        for i in range(3):
+            o = opts[ch.pick("t%d" % i, len(opts))]
+            bits.append([j in o for j in range(3)])
     inbound = [sum(1 for i in range(3) if bits[i][j]) for j in range(3)]
     joins = [inbound[j] >= 2 and ch.flag("j%d" % j) for j in range(3)]
     defn = build(bits, joins)
-    spec = native_specs.WorkflowSpec(json.loads(json.dumps(defn)))
+    key = json.dumps(defn, sort_keys=True)
+    if key not in _SPECS:
+        sp_ = native_specs.WorkflowSpec(json.loads(key))
+        _SPECS[key] = (sp_, sp_.inspect())
+    spec, report = _SPECS[key]
     c = ctx["counters"]
-    if spec.inspect():
+    if report:
         c["c15_rejected"] = c.get("c15_rejected", 0) + 1
         return {"definition": defn, "result": "rejected"}
     c["c15_conducted"] = c.get("c15_conducted", 0) + 1
@@ -184,12 +199,21 @@ def obligations(tier):
         o = ob("C15", "e2c.converse." + kind, "vt.harness.C15:converse", {"kind": kind}, timeout=900)
         o["antecedents"] = ["c15_mutants"]
         obs.append(o)
-    base = ob("C15", "e2c.forward", "vt.harness.C15:forward", {"steps": 4 if tier == "quick" else 6}, timeout=1800)
-    base["antecedents"] = ["c15_conducted"]
-    for i in range(16):
-        d = dict(base)
-        d["id"] = "C15.e2c.forward#%d" % i
-        d["fixed"] = {"e00": bool(i & 1), "e01": bool(i & 2), "e02": bool(i & 4), "e10": bool(i & 8)}
-        obs.append(d)
+    if tier == "quick":
+        base = ob("C15", "e2c.forward", "vt.harness.C15:forward", {"steps": 4, "fanout": "pairs"}, timeout=1800)
+        base["antecedents"] = ["c15_conducted"]
+        for i in range(7):
+            d = dict(base)
+            d["id"] = "C15.e2c.forward#%d" % i
+            d["fixed"] = {"t0": i}
+            obs.append(d)
+    else:
+        base = ob("C15", "e2c.forward", "vt.harness.C15:forward", {"steps": 6, "order": True, "bits": True, "fanout": "subset"}, timeout=7200)
+        base["antecedents"] = ["c15_conducted"]
+        for i in range(16):
+            d = dict(base)
+            d["id"] = "C15.e2c.forward#%d" % i
+            d["fixed"] = {"e00": bool(i & 1), "e01": bool(i & 2), "e02": bool(i & 4), "e10": bool(i & 8)}
+            obs.append(d)
     obs.append(ob("C15", "twin.forward", "vt.harness.C15:forward", {"steps": 4, "twin": True}, timeout=120))
     return obs
